@@ -51,6 +51,10 @@ def spec():
         # a REQUIRED key that already looks like a de-collision suffix is processed before the two keys that collide
         "Account": {"type": "object", "required": ["user_id_2"], "properties": {
             "user_id_2": {"type": "string"}, "userId": {"type": "string"}, "user_id": {"type": "string"}, "User-Id": {"type": "integer"}}},
+        # a time of day, and values whose schema says little: a free-form object, "anything", an array of free-form objects
+        "Loose": {"type": "object", "required": ["id"], "properties": {
+            "id": {"type": "integer"}, "at": {"type": "string", "format": "time"}, "meta": {"type": "object"}, "payload": {},
+            "rows": {"type": "array", "items": {"type": "object"}}, "note": {"description": "anything goes"}}},
         "Tree": {"type": "object", "required": ["label"], "properties": {"label": {"type": "string"}, "kids": {"type": "array", "items": {"$ref": "#/components/schemas/Tree"}}}},
     }
     ok = {"description": "ok", "content": {"application/json": {"schema": {"$ref": "#/components/schemas/Person"}}}}
